@@ -38,6 +38,15 @@ MODEL_B = """<?xml version="1.0" encoding="UTF-8"?>
 <informationRequirement><requiredInput href="#_Txt"/></informationRequirement>
 <literalExpression><text>[for i in 1..(modulo(floor(Num), 7) + 2) return i * i, for i in 1..3, j in [Num, 2] return i * j, some x in [1, 2, 3] satisfies x > modulo(floor(Num), 3), every x in [1, 2, 3] satisfies x > modulo(floor(Num), 3), [1, 2, 3, 4, 5][item > modulo(floor(Num), 5)], [{a: 1, b: Txt}, {a: Num, b: "q"}][a > 1].b, sort([Num, 3, 1000], function(a, b) a &lt; b), {a: Num, b: a + 1, c: [a, b]}.c, (function(p, q) p - q)(q: 1, p: Num), if Num > 500000 then "big" else Txt, Num in [1..500000], Num between 10 and 1000, string length(Txt) instance of number]</text></literalExpression>
 </decision>
+<businessKnowledgeModel name="Sum to" id="_SumTo"><variable name="Sum to"/>
+<encapsulatedLogic><formalParameter name="n" typeRef="number"/>
+<literalExpression><text>if n &lt;= 0 then 0 else n + Sum to(n - 1)</text></literalExpression></encapsulatedLogic>
+</businessKnowledgeModel>
+<decision name="Deep" id="_Deep"><variable name="Deep"/>
+<informationRequirement><requiredInput href="#_Num"/></informationRequirement>
+<knowledgeRequirement><requiredKnowledge href="#_SumTo"/></knowledgeRequirement>
+<literalExpression><text>[Sum to(40 + modulo(floor(Num), 20)), {f: function(k) if k &lt;= 0 then 0 else 1 + f(k - 1), r: f(45)}.r]</text></literalExpression>
+</decision>
 <decision name="All" id="_All"><variable name="All"/>
 <informationRequirement><requiredDecision href="#_Regex"/></informationRequirement>
 <informationRequirement><requiredDecision href="#_Numeric"/></informationRequirement>
@@ -62,13 +71,13 @@ MODEL_B = """<?xml version="1.0" encoding="UTF-8"?>
 
 
 def build_workload(rng):
-    models, calls, services = [], [], [[0, "Svc"], [0, "Iter"]]
+    models, calls, services = [], [], [[0, "Svc"], [0, "Iter"], [0, "Deep"]]
     models.append(MODEL_B)
     txts = ["abc123", "hello", "x9y8z7", "żółć", "aeiou", "UPPER", "a1", ""]
     days = ["2021-03-27", "2020-02-29", "1999-12-31", "2021-10-31", "2024-07-15"]
     for k in range(14):
         inp = [["Txt", {"s": rng.choice(txts)}], ["Num", {"n": str(rng.randint(1, 10 ** 6)) + "." + str(rng.randint(0, 999))}], ["Day", {"s": rng.choice(days)}]]
-        for inv in ("Regex", "Numeric", "Temporal", "Iter", "All", "Svc"):
+        for inv in ("Regex", "Numeric", "Temporal", "Iter", "Deep", "All", "Svc"):
             calls.append([0, inv, inp])
     # generated graphs: nested decisions + BKMs + services + tables (read locks nest several levels deep)
     for k, shape in enumerate(["mixed", "service-and-direct", "bkm-chain"]):
@@ -96,7 +105,7 @@ def run(rep, tier, seed):
     reps = 40 if tier == "quick" else 1500
     tsan_reps = 4 if tier == "quick" else 40
     rep.rule = (
-        "%d repetitions (thread counts 2, 3, 4, 8, 16 in turn; 60-400 calls per thread) of seeded call permutations over 4 shared evaluators (regular-expression, numeric, temporal-with-zones decisions, a decision made of for / some / every / filter / sort / function literal / context / named invocation / if / in / between / instance of, "
+        "%d repetitions (thread counts 2, 3, 4, 8, 16 in turn; 60-400 calls per thread) of seeded call permutations over 4 shared evaluators (regular-expression, numeric, temporal-with-zones decisions, a decision made of for / some / every / filter / sort / function literal / context / named invocation / if / in / between / instance of, a decision that recurses 40-60 levels deep through a knowledge model and through a function literal, "
         "a boxed context using a knowledge model, a decision service; generated graphs with nested decisions, BKM chains, tables and services), with seeded yields / spins / sleeps at the hook between lock "
         "acquisitions; then 6 hammer rounds per repetition (all threads call one invocable with 2-4 alternating inputs, identical inputs recurring, no delays); each repetition ends with 3 rendezvous rounds (K = thread count evaluations held inside the evaluator at once); %d repetitions on the ThreadSanitizer build. Distinct = order signature of "
         "the logical-clock event log; non-trivial = repetition in which calls of different threads overlapped." % (reps, tsan_reps)
